@@ -6,12 +6,14 @@ HSFZ / ISO-TP discovery scanners against Model/Parse.lean (the oracle the proper
 import asyncio
 import ipaddress
 import itertools
+import sys
 import types
 
+import c20_ext
 from common import setup_repo_import
 
 ID = "C20"
-GENS = []
+GENS = ["c20_tables"]
 PROOF = "Gallia.Proofs.C20"
 DRIVER = "c20"
 ORACLE = True
@@ -27,11 +29,16 @@ WS = " \t\n\r\x0b\x0c"
 
 
 def hs(s: str) -> str:
-    return s.encode("ascii").hex() if s else "-"
+    """a text on the driver's line protocol: hex of its UTF-8 bytes"""
+    return s.encode("utf-8").hex() if s else "-"
 
 
 def unhs(h: str) -> str:
-    return "" if h == "-" else bytes.fromhex(h).decode("latin-1")
+    return "" if h == "-" else bytes.fromhex(h).decode("utf-8")
+
+
+def hb(b: bytes) -> str:
+    return b.hex() if b else "-"
 
 
 def show_nats(l):
@@ -160,7 +167,7 @@ class Real:
         except ValueError:
             return "err"
         host = "none" if host is None else hs(canon_host(host))
-        return f"{hs(u.url.scheme)} {host} {port} {show_args(u.qs_flat)}"
+        return f"{hs(u.url.scheme)} {host} {port} {show_args(u.qs_flat)} {hs(u.path)}"
 
     def qs_flat(self, raw):
         try:
@@ -204,10 +211,10 @@ def canon_model_split(out: str) -> str:
 def canon_model_parse(out: str) -> str:
     if out in ("err", "bad-op"):
         return out
-    sch, h, p, a = out.split()
+    sch, h, p, a, path = out.split()
     if h != "none":
         h = hs(canon_host(unhs(h)))
-    return f"{sch} {h} {p} {a}"
+    return f"{sch} {h} {p} {a} {path}"
 
 
 # ---------------------------------------------------------------------------------------------------------
@@ -1003,6 +1010,10 @@ def run(ctx):
         nt("isotp-discoverer", repr((iface, start, stop, padding, extended, tester, sorted(answers.items()))))
     B.flush()
     ctx.notes["scanner_uris_read_back"] = n_found
+
+    # ---- 7. percent-encoding, Unicode edge, arbitrary parameter maps, every transport, unix sockets ---------
+    c20_ext.run_ext(ctx, real, B, sys.modules[__name__], nt, limited)
+    B.flush()
     ctx.sample({"fn": "unravel", "input": unhs(ctx.lean([f"render {toks[0]}"])[0]), "oracle": ctx.lean([f"denote {toks[0]}"])[0]})
     ctx.sample({"fn": "from_parts", "case": repr(uri_cases[3][:4]), "oracle": unhs(model_uris[3]), "parsed": model_parsed[3]})
 
@@ -1014,7 +1025,7 @@ def scanner_readback(real, scheme, raw):
     p = real.parse(raw)
     if p == "err":
         return "unparseable"
-    sch, host, port, _args = p.split()
+    sch, host, port, _args, _path = p.split()
     q = real.qs_flat(raw)
     return f"{unhs(sch)} {host} {port} {real.config(scheme, q)}"
 
@@ -1183,7 +1194,11 @@ def replay(ctx, case):
                 print(f"now [{what}]: impl={i!r} oracle={m!r}")
                 differs = differs or i != m
     else:
-        print("no specialised replay for this case; recorded case printed above")
+        r = c20_ext.replay_ext(ctx, real, sys.modules[__name__], c)
+        if r is None:
+            print("no specialised replay for this case; recorded case printed above")
+        else:
+            differs = r
     return differs
 
 
